@@ -97,6 +97,8 @@ def run_traced(spec, fault=None, gp_faults=None, predict_faults=None, ei_script=
         e["ginv"] = _vec(b.var_transf.ginv(np.atleast_2d(np.asarray(x, dtype=float))))
         e["ncalls_target"] = aux["calls"]["n"] - k
         e["ret"] = [_f(r[0]), _f(r[1]), None if r[2] is None else int(r[2])]
+        tr_ = aux["calls"].get("rets", {}).get(k)
+        e["tret"] = None if tr_ is None else [_f(tr_[0]), _f(tr_[1])]      # what the TARGET returned at this call (the wrapper's own record)
         e["ret_kind"] = [type(r[0]).__name__, type(r[1]).__name__]
         e["fc"] = int(self.func_count)
         e["Xn"] = int(self.Xn)
@@ -138,6 +140,12 @@ def run_traced(spec, fault=None, gp_faults=None, predict_faults=None, ei_script=
                     Xb = function_logger.variable_transformer.inverse_transf(np.atleast_2d(out))
                     C = np.asarray(cons_fn(Xb), dtype=float).reshape(-1)
                     e["cons"] = [[[float(v) for v in r], bool(c > 0)] for r, c in zip(np.atleast_2d(out), C)]
+            if cons_fn is not None and np.size(out):
+                # feasibility of what the filter lets through, judged by the run's own constraint function - whether or not the
+                # filter was handed it
+                Xo = function_logger.variable_transformer.inverse_transf(np.atleast_2d(np.asarray(out, dtype=float)))
+                Co = np.asarray(cons_fn(Xo), dtype=float).reshape(-1)
+                e["out_infeasible"] = int(np.sum(Co > 0))
             ev.append(("FILT", e))
         return out
 
@@ -586,7 +594,9 @@ def cached(tag, seed, tier, make_jobs):
     for fn in os.listdir(cdir):
         if fn.startswith(tag + "_") and fn.endswith(".pkl") and fn != key:
             try:
-                os.remove(os.path.join(cdir, fn))
+                fp = os.path.join(cdir, fn)
+                if time.time() - os.path.getmtime(fp) > 2 * 3600:     # recent entries may belong to a concurrent check (other tier / seed)
+                    os.remove(fp)
             except OSError:
                 pass
     tmp = path + f".{os.getpid()}.tmp"
